@@ -10,11 +10,12 @@ import translate          # noqa: E402
 import translate_obj      # noqa: E402
 import translate_obj2     # noqa: E402
 import translate_obj3     # noqa: E402
+import translate_obj4     # noqa: E402
 
 if __name__ == "__main__":
     extract.main()
     st = {}
-    for m in (translate, translate_obj, translate_obj2, translate_obj3):
+    for m in (translate, translate_obj, translate_obj2, translate_obj3, translate_obj4):
         st.update(m.main())
     bad = {k: v for k, v in st.items() if v != "ok"}
     print("regen: %d functions translated%s" % (len(st), "; FAILED: %s" % sorted(bad) if bad else ""))
